@@ -738,6 +738,17 @@ func (p *flowProto) runDecode(st *state, line, expect string) (string, string) {
 		verdict = fmt.Sprintf("fail:records %d records from %d octets", out.nrec, len(dg))
 	case ms1.TotalAlloc-ms0.TotalAlloc > allocBound(len(dg), maxPrev):
 		verdict = fmt.Sprintf("fail:alloc %d bytes allocated for a %d-octet datagram (bound %d)", ms1.TotalAlloc-ms0.TotalAlloc, len(dg), allocBound(len(dg), maxPrev))
+	case strings.HasPrefix(expect, "K2 ") && ln != expect[5:]:
+		// witness of finding K2: "K2 <n> <expected line>", n = octets per record (<= 4). The finding is named only
+		// when the harness has itself checked that what is missing is exactly a tail of such short records.
+		exp := expect[5:]
+		n := int(expect[3] - '0')
+		if n >= 1 && n <= 4 && strings.HasPrefix(exp, ln) && len(ln) < len(exp) && strings.HasPrefix(exp[len(ln):], "[") && !strings.HasSuffix(ln, "recs=") || n >= 1 && n <= 4 && strings.HasPrefix(exp, ln) && strings.HasSuffix(ln, "recs=") {
+			verdict = fmt.Sprintf("fail:short-record data records of %d octets at the end of a set were taken for padding and dropped: want %s got %s", n, clip(exp, 200), clip(ln, 200))
+		} else {
+			verdict = "fail:roundtrip decoded message differs from the abstract message: want " + clip(exp, 400) + " got " + clip(ln, 400)
+		}
+	case strings.HasPrefix(expect, "K2 "):
 	case expect != "" && expect != "-" && ln != expect:
 		verdict = "fail:roundtrip decoded message differs from the abstract message: want " + clip(expect, 400) + " got " + clip(ln, 400)
 	}
